@@ -280,6 +280,39 @@ func (p *progRun) build() (cur buffer.Buffer, err error) {
 				return nil
 			})
 			t.ranSync = t.done.Load()
+		case f[0] == "rp" && len(f) == 4 && (f[1] == "l" || f[1] == "r") && (f[2] == "d" || f[2] == "r"):
+			// the replication pattern: the task itself consumes the other handle
+			k, err := strconv.Atoi(f[3])
+			if err != nil || k < 0 {
+				return nil, fmt.Errorf("bad token %q", tok)
+			}
+			b1, b2 := cur.CloneStream()
+			if f[1] == "r" {
+				b1, b2 = b2, b1
+			}
+			t := &gtask{id: len(p.tasks), err: k, gate: make(chan struct{}), open: true}
+			p.tasks = append(p.tasks, t)
+			s := &sibling{policy: f[2]}
+			p.sibs = append(p.sibs, s)
+			cur = b1.WithTask(func() error {
+				if m := guard(func() {
+					if s.policy == "r" {
+						s.data, s.err = b2.ToByteSlice(bigMax)
+					} else {
+						b2.Discard()
+					}
+				}); m != "" {
+					s.panicV.Store(m)
+				}
+				s.done.Store(true)
+				<-t.gate
+				t.done.Store(true)
+				if t.err != 0 {
+					return codeErr(t.err)
+				}
+				return nil
+			})
+			t.ranSync = t.done.Load()
 		case tok == "eh":
 			h := &handler{}
 			p.handlers = append(p.handlers, h)
@@ -371,7 +404,12 @@ func (p *progRun) call(b buffer.Buffer) error {
 			return fmt.Errorf("bad cr")
 		}
 		r := b.ToChunkReader(int64(off), p.c.chunk)
-		if m[2] == "all" {
+		if m[2] == "one" {
+			if d, err := r.Read(); err == nil && len(d) > p.maxChunk {
+				p.maxChunk = len(d)
+			}
+			p.res = "ok:-"
+		} else if m[2] == "all" {
 			var data []byte
 			var err error
 			for i := 0; i < 100000; i++ {
